@@ -27,21 +27,26 @@ var GlobalValues map[string]r.Element
 
 // init function
 func init() {
+	globalValues = NewGlobalValues()
+	GlobalValues = globalValues
+}
 
-	//// predefined values - those variables (symbols) are defined before
-	//// any execution procedure.
-	//// NOTICE: those variables are all constants!
-	globalValues = map[string]r.Element{
+// NewGlobalValues - predefined values - those variables (symbols) are defined before
+// any execution procedure.
+// NOTICE: those variables are all constants!
+//
+// Every execution gets its own set: 数值 and 异常 carry state (the number value, the
+// constructor) that a program can change, which must not leak into other executions.
+func NewGlobalValues() map[string]r.Element {
+	return map[string]r.Element{
 		"真":    ZnConstBoolTrue,
 		"假":    ZnConstBoolFalse,
 		"空":    ZnConstNull,
-		"异常":   ZnConstExceptionClass,
+		"异常":   newExceptionModel(),
 		"显示":   ZnConstDisplayFunc,
 		"取随机数": ZnConstGetRandomFloat,
 		"数值":   &value.Number{},
 	}
-
-	GlobalValues = globalValues
 }
 
 func newExceptionModel() *value.ClassModel {
